@@ -135,9 +135,9 @@ macro_rules! serde_caps {
 }
 macro_rules! item_caps {
     ($c:ident, $t:ty) => {
-        $c.push_item = Some(|d: &mut $t, s: &$t, i| d.push(s.index(i)));
+        $c.push_item = Some(|d: &mut $t, s: &$t, i| mpush(d, s.index(i)));
         $c.push_borrowed =
-            Some(|d: &mut $t, o: &<$t as Region>::Owned| d.push(<<$t as Region>::ReadItem<'_> as IntoOwned>::borrow_as(o)));
+            Some(|d: &mut $t, o: &<$t as Region>::Owned| mpush(d, <<$t as Region>::ReadItem<'_> as IntoOwned>::borrow_as(o)));
     };
 }
 macro_rules! get_caps {
@@ -328,8 +328,8 @@ pub fn subjects() -> Vec<Subject> {
         c.reserve_forms = vec![rform::<T>("any", |r, vs| ReserveItems::reserve_items(r, vs.iter()))];
         clone_caps!(c, T);
         serde_caps!(c, T);
-        c.push_item = Some(|d: &mut T, s: &T, i| <T as Push<&u32>>::push(d, s.index(i)));
-        c.push_borrowed = Some(|d: &mut T, o: &u32| <T as Push<&u32>>::push(d, o));
+        c.push_item = Some(|d: &mut T, s: &T, i| mpush::<T, &u32>(d, s.index(i)));
+        c.push_borrowed = Some(|d: &mut T, o: &u32| mpush::<T, &u32>(d, o));
         add::<T>(&mut out, "vec_u32", c);
     }
     {
@@ -343,8 +343,8 @@ pub fn subjects() -> Vec<Subject> {
         c.reserve_forms = vec![rform::<T>("any", |r, vs| ReserveItems::reserve_items(r, vs.iter()))];
         clone_caps!(c, T);
         serde_caps!(c, T);
-        c.push_item = Some(|d: &mut T, s: &T, i| <T as Push<&String>>::push(d, s.index(i)));
-        c.push_borrowed = Some(|d: &mut T, o: &String| <T as Push<&String>>::push(d, o));
+        c.push_item = Some(|d: &mut T, s: &T, i| mpush::<T, &String>(d, s.index(i)));
+        c.push_borrowed = Some(|d: &mut T, o: &String| mpush::<T, &String>(d, o));
         add::<T>(&mut out, "vec_string", c);
     }
 
